@@ -84,6 +84,15 @@ add("C06", "exploration", "DESIGN.md §2 C06",
     "strings through 9 forms observed at the handler multiplexer and in a script's environment. Sampled.",
     "client-side parsers trusted; Gopher view is the reference for listings; remote links carry explicit host and port")
 
+add("C07", "exploration", "DESIGN.md §2 C07",
+    "Hypothesis-generated directories around every alternative of the ignore pattern x generated permutations of the OS "
+    "enumeration order (os.listdir wrapper) x both directory handlers; oracles: visible-set model in both directions, "
+    "metamorphic equality across permutations, documented order key, retrievability of everything kept out",
+    "4k (quick) / 60k (thorough) directories; each listed under three enumeration orders and a second protocol, every "
+    "kept-out entry fetched by exact selector. Permutations are sampled (2 per directory), not enumerated.",
+    "enumeration order is imposed by wrapping os.listdir inside the harness process; the ignore pattern is read from "
+    "the working tree's conf/pygopherd.conf")
+
 NOT_APPLICABLE = []
 
 
